@@ -575,6 +575,22 @@ pub fn corr(seed: u64, n: u64) {
     }
     for (a, b, c, class) in cases {
         for p in a.iter().chain(b.iter()) { corr_from_path(&mut stats, p, 3, &class.split('.').next().unwrap_or("").to_string()); }
+        // the orientation test `from_path` starts with, against the generated `points_are_clockwise` (bit for bit): the path as it is,
+        // reversed, and started one vertex later
+        for p in a.iter().chain(b.iter()) {
+            use flo_curves::bezier::path::{points_are_clockwise, PathWithIsClockwise};
+            let pts: Vec<Coord2> = p.1.iter().map(|(_, _, e)| *e).collect();
+            let mut variants: Vec<Vec<Coord2>> = vec![pts.clone(), pts.iter().rev().cloned().collect()];
+            if pts.len() > 1 { let mut r = pts.clone(); r.rotate_left(1); variants.push(r); }
+            for (k, v) in variants.iter().enumerate() {
+                let real = points_are_clockwise(v.iter().cloned());
+                let mut line = format!("C03 cw R #{}", v.len());
+                for q in v { line += &format!(" {} {}", hx(q.0), hx(q.1)); }
+                line += &format!(" | #{} #{}", real as u8, if k == 0 { p.is_clockwise() as u8 } else { real as u8 });
+                stats.count(&format!("cw.{}", if real { "clockwise" } else { "anticlockwise" }));
+                println!("{}", line);
+            }
+        }
         if class == "self_collide" {
             let g0 = match build(&a, 0) { Some(g) => g, None => { stats.count("build.panicked"); continue; } };
             let start = public_dump(&g0);
